@@ -378,6 +378,43 @@ func ruleDET1(c *Ctx) []Obligation {
 		for _, r := range reachedEffs {
 			check(r.Effect, " via "+r.Path)
 		}
+		// the body (with everything it calls) must not both store into an index and consult the same index:
+		// what a lookup sees would then depend on which keys were already visited
+		if mr.p.PkgPath == pkgASM {
+			ias := c.indexAccesses()
+			storesM, looksM := map[string]token.Pos{}, map[string]token.Pos{}
+			collect := func(ia *indexAccess, lo, hi token.Pos) {
+				if ia == nil {
+					return
+				}
+				for m, ps := range ia.stores {
+					for _, p := range ps {
+						if lo <= p && p <= hi {
+							storesM[m] = p
+						}
+					}
+				}
+				for m, ps := range ia.lookups {
+					for _, p := range ps {
+						if lo <= p && p <= hi {
+							looksM[m] = p
+						}
+					}
+				}
+			}
+			collect(ias[mr.fn], mr.rs.Body.Lbrace, mr.rs.Body.Rbrace)
+			order, _ := e.reach(roots)
+			for _, g := range order {
+				if obj, ok := g.Object().(*types.Func); ok {
+					collect(ias[obj], 0, 1<<40)
+				}
+			}
+			for m, sp := range storesM {
+				if lp, ok := looksM[m]; ok && strings.HasPrefix(m, "newIndex.") {
+					problems = append(problems, fmt.Sprintf("stores into %s (%s) and also consults it (%s) while ranging in map order", m, c.pos(sp), c.pos(lp)))
+				}
+			}
+		}
 		if len(problems) > 0 {
 			sort.Strings(problems)
 			uniq := problems[:0]
